@@ -43,6 +43,12 @@ def cases(seed, tier, shard, nshards):
                 yield z
             continue
         if rng.random() < 0.12:
+            z = order_sensitive_case(rng)
+            if z is not None:
+                made += 1
+                yield z
+            continue
+        if rng.random() < 0.12:
             z = zero_multiplier_case(rng)
             if z is not None:
                 made += 1
@@ -101,6 +107,107 @@ def zero_multiplier_case(rng):
     frag_string = c['frag_string'][:m.start(1)] + text + c['frag_string'][m.end(1):]
     return dict(c, kind='zero_mult', base_string=base_string, frag_string=frag_string, copies=n, virtual_names=[], alt_base_strings=[],
                 features=sorted(set(c['features']) | {'copies_by_zero_multiplier'}))
+
+
+ORDER_SENSITIVE_UNITS = {'PS': '[$]CC[$]c1ccccc1', 'CF': '[$]C(F)C(Cl)[$]', 'PP': '[$]CC(C)[$]', 'VA': '[$]CC[$]O', 'PE': '[$]CC[$]', 'PMA': '[$]CC[$]C(=O)OC',
+                         'T3': '[$]C(F)C[$](Cl)N[$]', 'OH': '[$]O', 'ME': '[$]C', 'DIR': '[>]CC(C)[<]', 'NH': '[$]N[$]'}
+
+
+def order_sensitive_case(rng):
+    """Polymer-style strings whose units carry several mutually compatible descriptors on DISTINGUISHABLE atoms
+    (polystyrene with '$'): which atoms bond depends on the sequence in which the resolver works through the base edges.
+    Fragment-less nodes and order-0 edges are then inserted into the written string without touching the written order of
+    the real nodes: as side branch in front of the continuing chain, with order-0 ring bonds to later nodes, at either end,
+    and as order-0 ring bonds between real nodes.  The molecule and the atoms of every real node must stay the same."""
+    names = rng.sample(sorted(ORDER_SENSITIVE_UNITS), rng.randint(1, 3))
+    n = rng.randint(2, 9)
+    plain = G.random_ast(rng, n, max_depth=2, p_branch=rng.choice([0.0, 0.25]), p_bond=0.0, n_rings=rng.choice([0, 0, 1]), names=names,
+                         p_trailing_branch=rng.choice([0, 0.2]), orders=(1,), p_pct=0.0)
+    ast = copy.deepcopy(plain)
+    flat = [e for e, _, _, _ in G._flat(ast)]
+    free = [m for m in range(10, 100) if not any(r[1] == m for e in flat for r in e['rings'])]
+    rng.shuffle(free)
+    feats = {'order_sensitive_units'} | {'unit_' + x for x in names}
+    nv = 0
+    for _ in range(rng.randint(1, 3)):
+        how = rng.choice(['front_branch', 'front_branch', 'ring_between_real', 'last', 'first', 'branch'])
+        if how in ('front_branch', 'branch'):
+            i = rng.randrange(len(flat))
+            v = G.el('V%d' % nv)
+            nv += 1
+            b = G.br([v], order=0)
+            if how == 'front_branch':
+                flat[i]['branches'].insert(0, b)
+                feats.add('virtual_branch_in_front_of_the_chain')
+            else:
+                flat[i]['branches'].append(b)
+                feats.add('virtual_branch')
+            written = [e for e, _, _, _ in G._flat(ast)]
+            later = [e for e in written[next(k for k, e in enumerate(written) if e is v) + 1:] if e in flat]
+            for _ in range(rng.choice([0, 1, 1, 2])):
+                if later and free:
+                    m = free.pop()
+                    v['rings'].append((0, m, True))
+                    rng.choice(later)['rings'].append((None, m, True))
+                    feats.add('virtual_ring_bond')
+        elif how == 'ring_between_real' and len(flat) >= 2 and free:
+            i, j = sorted(rng.sample(range(len(flat)), 2))
+            m = free.pop()
+            flat[i]['rings'].append((0, m, True))
+            flat[j]['rings'].append((None, m, True))
+            feats.add('zero_edge_between_real')
+        elif how == 'last':
+            ast.append(G.el('V%d' % nv, bond=0))
+            nv += 1
+            feats.add('virtual_last')
+        elif how == 'first':
+            ast[0]['bond'] = 0
+            ast.insert(0, G.el('V%d' % nv))
+            nv += 1
+            feats.add('virtual_first')
+    try:
+        G.denote(ast)
+        G.denote(plain)
+    except G.RefSyntaxError:
+        return None
+    frag = '{' + ','.join('#%s=%s' % (nm, ORDER_SENSITIVE_UNITS[nm]) for nm in names) + '}'
+    legacy = rng.random() < 0.7
+    return dict(kind='order_sensitive', string=G.to_string(ast) + '.' + frag, plain_string=G.to_string(plain) + '.' + frag, legacy=legacy,
+                features=sorted(feats | {'legacy_on' if legacy else 'legacy_off'}), nreal=len(G._flat(plain)))
+
+
+def run_order_sensitive(case):
+    from cgsmiles import MoleculeResolver
+    contracts.clear()
+    viol = []
+
+    def view(string):
+        cg, aa = MoleculeResolver.from_string(string, legacy=case['legacy']).resolve()
+        real = [k for k, d in cg.nodes(data=True) if not re.fullmatch(r'V\d+', str(d.get('fragname')))]
+        rank = {k: i for i, k in enumerate(real)}
+        g = nx.Graph()
+        for a, d in aa.nodes(data=True):
+            g.add_node(a, key=(d.get('element'), d.get('charge', 0), tuple(sorted(rank.get(f, -1) for f in d.get('fragid', [])))))
+        for a, b, d in aa.edges(data=True):
+            g.add_edge(a, b, order=d.get('order', 1))
+        virtual_atoms = [k for k, d in cg.nodes(data=True) if k not in rank and d.get('graph') is not None and len(d['graph'])]
+        return g, virtual_atoms
+    try:
+        ref, _ = view(case['plain_string'])
+    except Exception as err:
+        contracts.clear()
+        return {'violations': [], 'rejected': {'plain_string_not_resolvable_' + type(err).__name__: 1}, 'nontrivial': False, 'sample': case['plain_string'], 'cls': 'order_sensitive_rejected'}
+    try:
+        got, virt = view(case['string'])
+        if virt:
+            viol.append(V('c11.virtual_node_has_atoms', f"{case['string']}: fragment-less nodes {virt} own atoms"))
+        if not nx.is_isomorphic(ref, got, node_match=lambda x, y: x['key'] == y['key'], edge_match=lambda x, y: x['order'] == y['order']):
+            viol.append(V('c11.molecule_changed', f"{case['string']} (legacy={case['legacy']}) resolves to a different molecule or to different atoms per coarse node than the same string "
+                          f"without the fragment-less nodes and order-0 edges, {case['plain_string']}: bonds {sorted((min(a, b), max(a, b)) for a, b in got.edges)[:30]} vs {sorted((min(a, b), max(a, b)) for a, b in ref.edges)[:30]}"))
+    except Exception as err:
+        viol.append(V('c11.exception.' + type(err).__name__, f"{case['string']} raised {type(err).__name__}: {err} (without the insertions: {case['plain_string']})"))
+    contracts.clear()
+    return {'violations': viol, 'nontrivial': True, 'sample': case['string'], 'cls': ('order_sensitive', tuple(case['features']), case['nreal'])}
 
 
 def lower_level_name_case(rng):
@@ -228,6 +335,8 @@ def run(case):
         return run_zero_mult(case)
     if case.get('kind') == 'lower_level_name':
         return run_lower_level_name(case)
+    if case.get('kind') == 'order_sensitive':
+        return run_order_sensitive(case)
     contracts.clear()
     viol = []
     txt = MC.case_text(case)
